@@ -405,11 +405,18 @@ def model_json(case):
     parser = cli.get_argument_parser()
     _, in_args = inputs_of(case)
     args = parser.parse_args(list(case["argv"]) + in_args)
+    # adapters: the model receives the specifications as written on the command line (and the global search options) and builds the adapter list
+    # itself through the parser model (C18); only a `file:` specification - whose records the model cannot read - falls back on a description of
+    # the objects that the real parser built
+    given = list(args.adapters) + list(args.adapters2)
+    specs_ok = all("file:" not in sp and "file$:" not in sp and all(ord(c) < 128 for c in sp) for _, sp in given) and not os.environ.get("VERIF_MODEL_ADAPTERS_FROM_OBJECTS")
     logging.disable(logging.CRITICAL)
     try:
         ads, ads2 = cli.adapters_from_args(args)
     except cli.CommandLineError:
-        return None
+        if not specs_ok:
+            return None
+        ads = ads2 = None
     finally:
         logging.disable(logging.NOTSET)
     paired = cli.determine_paired(args)
@@ -449,8 +456,22 @@ def model_json(case):
              pair_filter=args.pair_filter, output=strip_dir(args.output), paired_output=strip_dir(args.paired_output),
              rest_file=strip_dir(args.rest_file), info_file=strip_dir(args.info_file), wildcard_file=strip_dir(args.wildcard_file),
              input_has_qualities=case["with_qual"], interleaved=bool(args.interleaved))
-    return dict(opts=o, adapters=[adapter_json(a) for a in ads], adapters2=[adapter_json(a) for a in ads2],
-                reads=[list(r) for r in case["reads1"]], reads2=[list(r) for r in (case["reads2"] or [])])
+    d = dict(opts=o, reads=[list(r) for r in case["reads1"]], reads2=[list(r) for r in (case["reads2"] or [])])
+    if specs_ok:
+        flag = {"back": "a", "front": "g", "anywhere": "b"}
+        def sp(lst, objs):
+            # auto_name: the real program numbers unnamed adapters with a process-wide counter; the model uses it only for a specification without a name
+            return [dict(flag=flag[t], spec=x, auto_name=(objs[i].name if objs is not None and len(objs) == len(lst) else "")) for i, (t, x) in enumerate(lst)]
+        e_lit = "0.1"
+        argv = list(case["argv"])
+        for i, t in enumerate(argv[:-1]):
+            if t in ("-e", "--error-rate", "--errors"):
+                e_lit = argv[i + 1]
+        d.update(specs=sp(args.adapters, ads), specs2=sp(args.adapters2, ads2),
+                 globals=dict(e=e_lit, O=str(args.overlap), rw=bool(args.match_read_wildcards), aw=bool(args.match_adapter_wildcards), indels=bool(args.indels)))
+    else:
+        d.update(adapters=[adapter_json(a) for a in ads], adapters2=[adapter_json(a) for a in ads2])
+    return d
 
 
 def canon_model(out):
